@@ -44,6 +44,7 @@ H(o) == hist' = IF GenHist THEN Append(hist, o) ELSE hist
 Tick == clock' = clock + 1     \* a committed engine transaction advances every kind of clock
 
 NewRec(c) == [holder |-> c, n |-> cnt[c] + 1]
+CandNo(c) == IF c = "a" THEN 1 ELSE IF c = "b" THEN 2 ELSE 3
 
 \* ---- the three lock operations; each is one engine call plus a timestamp read
 Get(c) ==
@@ -75,8 +76,22 @@ Update(c) ==
             /\ H([e |-> "LUpdate", c |-> c, n |-> cnt[c] + 1, ok |-> FALSE])
     /\ UNCHANGED last
 
+\* giving the lock up (client-go: release on cancel): an Update that writes an empty holder -- the same
+\* compare-and-swap against the bytes last read; a candidate whose view is stale must not wipe the record
+Release(c) ==
+    /\ tso[c] # 0
+    /\ cnt' = [cnt EXCEPT ![c] = @ + 1]
+    /\ IF rec # None /\ rec = last[c]
+       THEN /\ rec' = [holder |-> "", n |-> 100 * (cnt[c] + 1) + CandNo(c)]   \* (records carry times: no two are equal)
+            /\ wins' = Append(wins, [c |-> "", kind |-> "release", from |-> rec])
+            /\ Tick /\ tso' = [tso EXCEPT ![c] = clock + 1]
+            /\ H([e |-> "LRelease", c |-> c, n |-> cnt[c] + 1, ok |-> TRUE])
+       ELSE /\ UNCHANGED <<rec, wins, clock, tso>>
+            /\ H([e |-> "LRelease", c |-> c, n |-> cnt[c] + 1, ok |-> FALSE])
+    /\ UNCHANGED last
+
 LockStep == /\ steps < MaxSteps /\ steps' = steps + 1
-            /\ \E c \in Cands : Get(c) \/ Create(c) \/ Update(c)
+            /\ \E c \in Cands : Get(c) \/ Create(c) \/ Update(c) \/ Release(c)
             \* the old leader has stopped by the time another candidate takes the lock (C15's quantifier;
             \* two overlapping leaders are a different matter)
             /\ leader' = IF leader # "" /\ rec'.holder # leader THEN "" ELSE leader
@@ -105,7 +120,7 @@ Spec == Init /\ [][Next]_vars
 \* C14
 AtMostOneCreate == Cardinality({i \in 1..Len(wins) : wins[i].kind = "create"}) <= 1
 \* two candidates never both acquire from the same observed record
-NoTwoFromSameObserved == \A i, j \in 1..Len(wins) : (i # j /\ wins[i].kind = "update" /\ wins[j].kind = "update") => wins[i].from # wins[j].from
+NoTwoFromSameObserved == \A i, j \in 1..Len(wins) : (i # j /\ wins[i].kind # "create" /\ wins[j].kind # "create") => wins[i].from # wins[j].from
 \* the stored record is always the one written by the latest successful acquisition
 NeverSilentlyOverwritten == wins # << >> => (rec.holder = wins[Len(wins)].c /\ rec # None)
 \* C15
